@@ -32,6 +32,19 @@ pub enum MetadataError {
     InvalidSourceLocation(PathBuf),
 
     #[diagnostic(
+        code(MetadataError::OutputPathCollision),
+        help("rename one of the files or change [build] sources / target")
+    )]
+    #[error(
+        "source files \"{first}\" and \"{second}\" would both be written to \"{dst}\""
+    )]
+    OutputPathCollision {
+        first: PathBuf,
+        second: PathBuf,
+        dst: PathBuf,
+    },
+
+    #[diagnostic(
         code(MetadataError::ReservedSourceDir),
         help("remove it from [build] sources")
     )]
